@@ -581,3 +581,58 @@ def rule_range_encoding(ctx):
             bad = [s for s in encs if not callee_matches(callee_of(s), r"encode_constraints_and_range$")]
             r.check(not bad, anchor, "plain-encoding", "the solver was filled by encode_constraints_and_range", "the range-based computer runs on a solver filled by `encode_constraints` (no range definitions): its range maximisation is meaningless", (bad[0].loc() if bad else cs.loc()))
     r.floor(n, 2, "creations of a range-based maximal-extension computer")
+
+
+def rule_encoded_framework_is_searched(ctx, kind=None):
+    """C04 / C01: the solver a search runs on was given the encoding of the framework the search is about"""
+    from .accept import query_scope
+    from ..prov import roots, prov, show
+
+    prog = ctx.prog
+    scope = query_scope(prog, kind)
+    r = ctx.rule(
+        "encoded-framework-is-the-searched-one",
+        "in the static solvers, a maximal-extension computer (or a decoding of a model) that works on a SAT solver filled in the same function "
+        "is built for the framework that was encoded into that solver: `encode_constraints(cc, solver)` followed by `new_for_..(other_cc, solver)` "
+        "searches the extensions of one component with the variables of another",
+    )
+    n = 0
+    fns = [b for b in prog.lib_bodies() if b.kind != "closure" and (b.path.startswith("solvers::") or "<solvers::" in b.path.split(" as ")[0])]
+    fns = [b for b in fns if scope is None or b.id in scope]
+    for fn in sorted(fns, key=lambda b: b.id):
+        for b in prog.with_closures(fn):
+            encs = []
+            for s in b.calls():
+                if callee_matches(callee_of(s), ENCODE):
+                    cr = _solver_creations(prog, b, s.node["args"][2])
+                    if cr and all(x[0] == "site" for x in cr):
+                        encs.append((s, {(x[1].id, x[2].bb, x[2].si) for x in cr}, roots(prog, b, s.node["args"][1])))
+            if not encs:
+                continue
+            for s in b.calls():
+                c = callee_of(s)
+                t = prog.body_for_callee(c, b) if c else None
+                if t is None or t.kind == "closure" or callee_matches(c, ENCODE):
+                    continue
+                if not re.search(r"maximal_extension_computer::|MaximalExtensionComputer", t.path + t.ret_ty):
+                    continue
+                afs = [a for i, a in enumerate(s.node["args"]) if op_place(a) is not None and "AAFramework<" in t.local_ty(i + 1)]
+                sols = [a for i, a in enumerate(s.node["args"]) if op_place(a) is not None and "SatSolver" in t.local_ty(i + 1)]
+                if len(afs) != 1 or len(sols) != 1:
+                    continue
+                cr2 = _solver_creations(prog, b, sols[0])
+                if not cr2 or any(x[0] != "site" for x in cr2):
+                    continue
+                key2 = {(x[1].id, x[2].bb, x[2].si) for x in cr2}
+                for es, key1, r1 in encs:
+                    if not (key1 & key2):
+                        continue
+                    n += 1
+                    r2 = roots(prog, b, afs[0])
+                    anchor = "%s|search@%d" % (b.id, s.bb)
+                    if not r1 or not r2 or any(x[0] == "?" for x in r1 | r2):
+                        r.ok(anchor, "NOT decided: the frameworks handed to the encoder and to the search are not traced to where they were made", s.loc())
+                    else:
+                        r.check(bool(r1 & r2), anchor, "encoded-another-framework", "the search is built for the framework that was encoded into its solver", "the solver of this search was filled with the encoding of another framework (%s) than the one the search is built for (%s): variables of one component are read as arguments of another" % ("; ".join(show(e)[:50] for e in prov(prog, b, es.node["args"][1])), "; ".join(show(e)[:50] for e in prov(prog, b, afs[0]))), s.loc())
+    if n == 0:
+        r.ok("searches", "NOT decided: no function both encodes a framework into a solver and builds a search on that solver", None)
